@@ -1184,6 +1184,17 @@ impl Exec {
                 if a.cap < a.len {
                     self.fail(&["C11"], format!("after `{opline}` h{i} reports capacity {} < len {}", a.cap, a.len));
                 }
+                // C06/C05/C03: a heap handle's allocation really holds header + reported capacity
+                if a.kind == 'H' {
+                    match shadow::with(|sh| sh.block_of_text(a.addr)) {
+                        Some((b, size)) => {
+                            if size < 16usize.saturating_add(a.cap) {
+                                self.fail(&["C06", "C05", "C03"], format!("after `{opline}` h{i} reports capacity {} but its allocation B{b} holds only {size} bytes (header included)", a.cap));
+                            }
+                        }
+                        None => self.fail(&["C06", "C05", "C03"], format!("after `{opline}` heap handle h{i} (capacity {}) does not point into a live allocation", a.cap)),
+                    }
+                }
                 // C20 niche: the discriminating byte is a declared LastByte value
                 if let Some(s) = self.pool[i].as_ref() {
                     let lb = verif_hooks::last_byte(s);
